@@ -240,6 +240,12 @@ fn gen_c04(r: &mut Prng, i: u64, _t: Tier) -> Plan {
     }
     // a slow (but never absent) acceptor
     p.accept_pace = *r.pick(&[0usize, 0, 3, 12]);
+    // sometimes two tasks of an application accept concurrently
+    for e in 0..2 {
+        if r.chance(1, 5) {
+            p.extra_acceptors[e] = 1;
+        }
+    }
     let n = 1 + r.below(3);
     for _ in 0..n {
         let mut s = gen_stream(r, &BURST);
@@ -1378,7 +1384,7 @@ impl Family for C13Family {
             ws.push(if r.chance(1, 4) { Wr::PendWake } else { Wr::Accept(1 + r.below(16)) });
         }
         if r.chance(1, 6) {
-            ws.push(Wr::Err);
+            ws.push(if r.chance(1, 4) { Wr::ZeroForever } else { Wr::Err });
         }
         let fls = |r: &mut Prng, perr: u64| -> Vec<Fl> {
             let mut v = vec![];
